@@ -39,19 +39,28 @@ def is_fin(e):
     return api.finite(e)
 
 
-def price_case(kind, call, edge):
+def edge_inputs(c, edge, mixed):
+    """s, t, v of shape (1,) at the edge; mixed: shape (2,) whose entry 0 is at the edge and entry 1 is an arbitrary regular point
+    (a batch mixing expired and live options, as the maturity column next to the other columns of a path)"""
+    n = 2 if mixed else 1
+    s = api.tensor(c, "s", (n,))
+    t = api.tensor(c, "t", (n,), nonneg=True)
+    v = api.tensor(c, "v", (n,), nonneg=True)
+    z = zeros_like_input(c, t[:1])
+    if edge == "t0":
+        t = torch.cat([z, t[1:]]) if mixed else z
+    else:
+        v = torch.cat([z, v[1:]]) if mixed else z
+    return s, t, v, n
+
+
+def price_case(kind, call, edge, mixed=False):
     """edge in {'t0','v0'}: price equals the then-certain payoff, and is not NaN"""
     from pfhedge.nn import functional as F
 
     def fn(c):
         K = api.real(c, "K", pos=True)
-        s = api.tensor(c, "s", (1,))
-        t = api.tensor(c, "t", (1,), nonneg=True)
-        v = api.tensor(c, "v", (1,), nonneg=True)
-        if edge == "t0":
-            t = zeros_like_input(c, t)
-        else:
-            v = zeros_like_input(c, v)
+        s, t, v, n = edge_inputs(c, edge, mixed)
         se = val(elem(s, 0))
         S = K * api.exp(se)
         if kind == "european":
@@ -63,9 +72,11 @@ def price_case(kind, call, edge):
             want = api.ite(api.gt(se, 0), 1, 0) if call else api.ite(api.lt(se, 0), 1, 0)
             cond = api.not_(api.eq(se, 0))  # away from the strike
         else:
-            m = api.tensor(c, "m", (1,))
+            m = api.tensor(c, "m", (n,))
             me = val(elem(m, 0))
             c.assume(api.ge(me, se))
+            if mixed:
+                c.assume(api.ge(val(elem(m, 1)), val(elem(s, 1))))
             M = K * api.exp(me)
             if kind == "ambinary":
                 out = F.bs_american_binary_price(s, m, t, v)
@@ -86,18 +97,12 @@ def price_case(kind, call, edge):
     return fn
 
 
-def delta_case(kind, call, edge):
+def delta_case(kind, call, edge, mixed=False):
     from pfhedge.nn import functional as F
 
     def fn(c):
         K = api.real(c, "K", pos=True)
-        s = api.tensor(c, "s", (1,))
-        t = api.tensor(c, "t", (1,), nonneg=True)
-        v = api.tensor(c, "v", (1,), nonneg=True)
-        if edge == "t0":
-            t = zeros_like_input(c, t)
-        else:
-            v = zeros_like_input(c, v)
+        s, t, v, n = edge_inputs(c, edge, mixed)
         se = val(elem(s, 0))
         away = api.not_(api.eq(se, 0))
         if kind == "european":
@@ -107,9 +112,11 @@ def delta_case(kind, call, edge):
             out = F.bs_european_binary_delta(s, t, v, call=call, strike=K)
             want = 0
         else:
-            m = api.tensor(c, "m", (1,))
+            m = api.tensor(c, "m", (n,))
             me = val(elem(m, 0))
             c.assume(api.ge(me, se))
+            if mixed:
+                c.assume(api.ge(val(elem(m, 1)), val(elem(s, 1))))
             out = F.bs_american_binary_delta(s, m, t, v, K)
             want = 0
             away = api.not_(api.eq(me, 0))  # barrier not exactly at the strike
@@ -202,6 +209,15 @@ def cases():
             for call in calls:
                 cs.append(Case("delta/%s/%s/%s" % (kind, "call" if call else "put", edge), delta_case(kind, call, edge), xmode=True,
                                encodes=enc, bounds="all finite log-moneyness away from the strike", families=fam, batch=False))
+    # batches mixing an expired / zero-volatility entry with a live one (the guards must act per element)
+    for edge in ("t0", "v0"):
+        for kind, calls in (("european", (True,)), ("eubinary", (True,)), ("ambinary", (True,)), ("lookback", (True,))):
+            cs.append(Case("price-mixed/%s/%s" % (kind, edge), price_case(kind, True, edge, mixed=True), xmode=True, encodes=enc,
+                           bounds="shape (2,): entry 0 at the edge, entry 1 arbitrary t, v >= 0", families=fam, batch=False,
+                           tier="quick" if kind == "ambinary" else "thorough", timeout=120))
+        for kind in ("european", "eubinary", "ambinary"):
+            cs.append(Case("delta-mixed/%s/%s" % (kind, edge), delta_case(kind, True, edge, mixed=True), xmode=True, encodes=enc,
+                           bounds="shape (2,): entry 0 at the edge, entry 1 arbitrary t, v >= 0", families=fam, batch=False, timeout=120))
     for f in ("d1", "d2", "european_price", "european_delta", "european_gamma", "european_vega", "european_theta", "eubinary_price",
               "eubinary_delta", "eubinary_gamma", "ambinary_price", "ambinary_delta", "lookback_price"):
         cs.append(Case("reject-negative/%s" % f, reject_case(f), xmode=True, encodes=enc, expect_exc=(ValueError,),
